@@ -7,12 +7,16 @@ From PV Require Import History Solver SolverProofs Interp Inputs InputsProofs.
 Import ListNotations.
 Local Open Scope nat_scope.
 
-(* Headline (full strength since fix D89 removed the loud class D30): for every network of integrators with weighted
-   edges, both fixed-step solvers, EVERY hierarchy depth, any declared default of the input variable and every list of
+(* Headline (since fix D89 removed the loud class D30 no guard about the hierarchy is needed): for every network of
+   integrators with weighted edges, both fixed-step solvers, any declared default of the input variable and every list of
    inputs in a form the property speaks about (1-D, (N,1), or (N,n) with n = #targets under vectorization; arrays at
    least as long as the number of steps; target lists without repetition), run() returns the trajectory driven by
    spec_u (arrays with at least two time samples: see C08_refuted_single_sample), for any number of steps, any sampling step and any cutoff (the arrays are read with the step counter k, the
    stored rows are C03's).  rows_fit / frame_ok are C03's conditions on (T, dt, dts). *)
+(* SCOPE (independent review, DESIGN.md section 12): target lists are PRE-RESOLVED lists of unit numbers -- wildcard and
+   hierarchy selection is outside this model; the `depth` argument is not used by run_inputs_core and there is no backend
+   parameter: the hierarchy (depth 0-3) and the backends' own loops (default, torch, jax) are decided by the
+   correspondence stream of harness/c08.py, not by this theorem. *)
 Theorem C08_full : forall s vectorize depth T dt dts cutoff udef W inputs x0,
   let d := match dts with Some d => d | None => dt end in
   multi_sample inputs = true ->
@@ -21,6 +25,8 @@ Theorem C08_full : forall s vectorize depth T dt dts cutoff udef W inputs x0,
 Proof. exact run_inputs_full. Qed.
 Print Assumptions C08_full.
 
+(* DEFINITIONAL (closed by reflexivity: the model ignores `depth`); kept as a record of that modelling decision, it
+   says nothing about PyRates' hierarchy handling *)
 Theorem C08_depth_irrelevant : forall s vectorize depth T dt dts cutoff udef W inputs x0,
   run_inputs s vectorize depth T dt dts cutoff udef W inputs x0 = run_inputs s vectorize 0 T dt dts cutoff udef W inputs x0.
 Proof. exact run_inputs_depth_irrelevant. Qed.
@@ -82,7 +88,9 @@ Theorem C08_inputs_add : forall sample inp inputs i,
 Proof. exact forcing_cons. Qed.
 Print Assumptions C08_inputs_add.
 
-(* default rule: the declared default of the input variable is used by exactly the units without any source *)
+(* default rule: the declared default of the input variable is used by exactly the units without any source.
+   DEFINITIONAL: `base` is shared by Impl (net_rhs) and Spec (spec_rhs), these two statements unfold it; the default rule
+   is tied to the code by the correspondence stream (non-zero defaults, C08-m4), not proved of a separate mechanism *)
 Theorem C08_default_uncovered : forall udef W inputs i, covered W inputs i = false -> base udef W inputs i = udef.
 Proof. exact base_uncovered. Qed.
 Print Assumptions C08_default_uncovered.
@@ -154,6 +162,8 @@ Proof. exact refuted_single_sample. Qed.
 Print Assumptions C08_refuted_single_sample.
 
 (* -------- regression of fix D89 (was C08_refuted_depth2: AttributeError at hierarchy depth >= 2) -------- *)
+(* a computed value of the model (which ignores the depth); the statement about depth 2 and 3 is made by the corpus cases
+   corpus/C08/D89_depth2_fixed.json and D89_depth3_two_inputs.json on the real code *)
 Theorem C08_depth2_after_D89 :
   outcome_eqb (run_inputs Euler true 2 (mkq 1 1) (mkq 1 4) None (mkq 0 1) (mkq 0 1) [[mkq 0 1]] [(A1 [mkq 1 1; mkq 2 1; mkq 4 1; mkq 8 1], [0])] [mkq 1 2])
               (Rows [[mkq 0 1; mkq 1 2]; [mkq 1 4; mkq 3 4]; [mkq 1 2; mkq 5 4]; [mkq 3 4; mkq 9 4]]) = true.
